@@ -379,6 +379,10 @@ pub struct Compiler<'a, E: quiver_core::effects::Effect> {
     // call-site return-type dispatch. `None` outside a function body.
     collected_dispatch: Option<DispatchCollection>,
 
+    // How many tail calls to the function currently being compiled (`^`) its body has had so
+    // far. A dispatch branch during which this grows does not just evaluate to its own type.
+    self_tail_calls: usize,
+
     // Set by the most recent function-body block: the unhandled parameter type when the body is
     // a non-exhaustive enumeration (every branch a variant pattern, but some variant uncovered).
     // Consulted by the return-type check to name unhandled cases. `None` if exhaustive or not an
@@ -510,6 +514,7 @@ impl<'a, E: quiver_core::effects::Effect> Compiler<'a, E> {
             process_types,
             current_receive_type_id: never_id,
             collected_dispatch: None,
+            self_tail_calls: 0,
             last_uncovered: None,
             fn_case_tables: HashMap::new(),
             case_tables: HashMap::new(),
@@ -1570,6 +1575,7 @@ impl<'a, E: quiver_core::effects::Effect> Compiler<'a, E> {
             branches: Vec::new(),
             valid: true,
         });
+        let saved_self_tail_calls = std::mem::replace(&mut self.self_tail_calls, 0);
         let body_type = match function.body {
             Some(body) => {
                 // Function parameters have Provenance::Parameter since they come from callers
@@ -1590,6 +1596,7 @@ impl<'a, E: quiver_core::effects::Effect> Compiler<'a, E> {
             }
         };
         let dispatch = std::mem::replace(&mut self.collected_dispatch, saved_dispatch);
+        self.self_tail_calls = saved_self_tail_calls;
 
         // Validate return type if specified
         if let Some(return_type_ast) = &function.return_type {
@@ -2036,6 +2043,11 @@ impl<'a, E: quiver_core::effects::Effect> Compiler<'a, E> {
         // non-exhaustive enumeration's synthetic dispatch branch; see below.
         let mut faithfully_covered: Vec<usize> = Vec::new();
 
+        // Indices (into the dispatch table) of the branches that make a tail call to this
+        // function. Such a branch is typed `never`, but the call dispatches again on its argument:
+        // the branch evaluates to whatever the function does, which is only known at the end.
+        let mut redispatching: Vec<usize> = Vec::new();
+
         // Track whether the block exhaustively covers all type variants.
         // Assume not exhaustive until proven otherwise by complement narrowing.
         let mut is_exhaustive = false;
@@ -2054,6 +2066,7 @@ impl<'a, E: quiver_core::effects::Effect> Compiler<'a, E> {
             }
 
             branch_starts.push(self.codegen.instructions.len());
+            let self_tail_calls_before = self.self_tail_calls;
 
             if i > 0 {
                 self.codegen.add_instruction(Instruction::Pop);
@@ -2277,6 +2290,9 @@ impl<'a, E: quiver_core::effects::Effect> Compiler<'a, E> {
             if let Some(d) = &mut dispatch {
                 match branch_guard {
                     Some(guard) if branch_types.len() == branch_types_before + 1 => {
+                        if self.self_tail_calls > self_tail_calls_before {
+                            redispatching.push(d.branches.len());
+                        }
                         d.branches.push((guard, branch_types[branch_types_before]));
                     }
                     _ => d.valid = false,
@@ -2398,14 +2414,22 @@ impl<'a, E: quiver_core::effects::Effect> Compiler<'a, E> {
             }
         }
 
+        let result_type = typing::union_type_ids(self.program, branch_types);
+
         if is_function_body {
             // The uncovered region (if any) names the unhandled cases for the return-type check.
             self.last_uncovered = uncovered_region;
+            // A branch that tail-calls this function evaluates to what the function evaluates to.
+            if let Some(d) = &mut dispatch {
+                for index in redispatching {
+                    d.branches[index].1 = result_type;
+                }
+            }
             // Hand the dispatch collection back to the enclosing function body.
             self.collected_dispatch = dispatch;
         }
 
-        Ok(typing::union_type_ids(self.program, branch_types))
+        Ok(result_type)
     }
 
     /// Compile a sequence of `,`-separated chains, short-circuiting to nil if any yields nil.
@@ -4496,6 +4520,7 @@ impl<'a, E: quiver_core::effects::Effect> Compiler<'a, E> {
                 self.codegen.add_instruction(Instruction::Tuple(NIL));
             }
             self.codegen.add_instruction(Instruction::TailCall(true));
+            self.self_tail_calls += 1;
             Ok(self.program.never())
         } else {
             // Tail call to identifier with accessors
